@@ -44,6 +44,9 @@ class TlcResult:
             self.violated = m.group(1)
         if re.search(r"Error: Postcondition (\S+)", out):
             self.violated = self.violated or re.search(r"Error: Postcondition (\S+)", out).group(1)
+        m = re.search(r"Error: Temporal property (\S+) was violated", out)
+        if m:
+            self.violated = self.violated or m.group(1)
         if "Temporal properties were violated" in out:
             self.violated = self.violated or "temporal"
         m = re.search(r"The depth of the complete state graph search is (\d+)", out)
